@@ -137,9 +137,7 @@ macro_rules! impl_observer {
       fn error(self, _: Err) {}
 
       #[inline]
-      fn complete(self) {
-        self.0.stop_skipping()
-      }
+      fn complete(self) {}
 
       #[inline]
       fn is_finished(&self) -> bool {
